@@ -368,6 +368,43 @@ def split_conditional_statements(body):
     return out
 
 
+def _const_items(node, globals_):
+    """items of a literal tuple / list of constants (or of tuples of constants), directly or through a module constant"""
+    if isinstance(node, ast.Name) and globals_ and node.id in globals_:
+        node = globals_[node.id]
+    if not isinstance(node, (ast.Tuple, ast.List)) or not 1 <= len(node.elts) <= 8:
+        return None
+
+    def const(e):
+        return isinstance(e, ast.Constant) or (isinstance(e, (ast.Tuple, ast.List)) and all(const(x) for x in e.elts))
+    return list(node.elts) if all(const(e) for e in node.elts) else None
+
+
+def unroll_constant_loops(body, globals_):
+    """for a, b in (("A", "t"), ("C", "g")): S   ->   a, b = "A", "t"; S; a, b = "C", "g"; S     (no break / continue in S)"""
+    out = []
+    for st in body:
+        for field in ('body', 'orelse', 'finalbody'):
+            b = getattr(st, field, None)
+            if isinstance(b, list) and b and isinstance(b[0], ast.stmt) and not isinstance(st, ast.ClassDef):
+                setattr(st, field, unroll_constant_loops(b, globals_))
+        if isinstance(st, ast.Try):
+            for h in st.handlers:
+                h.body = unroll_constant_loops(h.body, globals_)
+        if isinstance(st, ast.For) and not st.orelse:
+            items = _const_items(st.iter, globals_)
+            jumps = any(isinstance(n, (ast.Break, ast.Continue)) for s_ in st.body for n in ast.walk(s_))
+            local_shadow = isinstance(st.iter, ast.Name) and any(
+                isinstance(n, ast.Name) and n.id == st.iter.id and isinstance(n.ctx, ast.Store) for s_ in body for n in ast.walk(s_))
+            if items is not None and not jumps and not local_shadow:
+                for it in items:
+                    out.append(ast.copy_location(ast.Assign([copy.deepcopy(st.target)], copy.deepcopy(it)), st))
+                    out.extend(copy.deepcopy(st.body))
+                continue
+        out.append(st)
+    return out
+
+
 def recover_comprehensions(body):
     """xs = [] ; for t in it: xs.append(e)   ->   xs = [e for t in it]     (the loop body is exactly that append)"""
     out = []
@@ -422,13 +459,15 @@ def inline_project(trees, exports):
                         vis[a.asname or a.name] = defs[(st.module, a.name)]
         helpers[mod] = vis
     for mod, tree in trees.items():
+        mglobals = {t_.id: st_.value for st_ in tree.body if isinstance(st_, ast.Assign) and len(st_.targets) == 1
+                    for t_ in [st_.targets[0]] if isinstance(t_, ast.Name)}
         for st in tree.body:
             if isinstance(st, ast.FunctionDef):
-                st.body = recover_comprehensions(split_conditional_statements(st.body))
+                st.body = recover_comprehensions(split_conditional_statements(unroll_constant_loops(st.body, mglobals)))
             elif isinstance(st, ast.ClassDef):
                 for b in st.body:
                     if isinstance(b, ast.FunctionDef):
-                        b.body = recover_comprehensions(split_conditional_statements(b.body))
+                        b.body = recover_comprehensions(split_conditional_statements(unroll_constant_loops(b.body, mglobals)))
         ast.fix_missing_locations(tree)
     if not any(helpers.values()) and not any(any(n.startswith('_') and not n.startswith('__') for n in m) for m in methods.values()):
         return 0
